@@ -25,7 +25,8 @@ THEOREMS = [
 ]
 RULE = ("circuits on 1-4 qubits with 1-3 wire-cut markers at any position (first/last on a wire, interleaved) pushed through cut_wires -> "
         "expand_observables -> partition_problem (automatic / explicit) -> generate_cutting_experiments, observables incl. identity on whole "
-        "partitions; plus hand-placed Moves onto fresh qubits and Move chains that re-use qubits; budgets {inf, 1..500}; non-trivial = at least one "
+        "partitions; plus hand-placed Moves onto fresh qubits and Move chains that re-use qubits; for the second clause also user-written resets with "
+        "gate cuts only (no wire cut); budgets {inf, 1..500}; non-trivial = at least one "
         "Move; distinct by payload")
 ASSUMPTIONS = c05.ASSUMPTIONS + ["values unaffected: checked in the failing-input search by reconstructing from exactly simulated subexperiments"]
 _cache = {}
@@ -43,8 +44,41 @@ def _dest_used_case(rng, two):
                          "seed": rng.randrange(1 << 30), "single": rng.random() < 0.5})
 
 
+def _gate_cut_reset_cases():
+    """second clause, "in every workflow": the input circuit itself carries reset instructions (explicit initialisation as the first operation
+    of a wire, a doubled re-initialisation in the middle of a wire, a tidy-up reset as the last operation of a wire that is not measured) and
+    the problem has gate cuts only - no wire cut, no Move basis among the bases - or a gate cut next to a wire cut.  Every subexperiment must
+    still be free of leading / trailing / doubled resets and the reconstructed values must be those of the uncut circuit.
+    (Second clause only: a wire that carries a user reset has been used, T19.1's conclusion "no reset at all" is not claimed for it.)"""
+    def g(name, qs, *params):
+        return {"name": name, "qubits": list(qs), **({"params": list(params)} if params else {})}
+    r = lambda q: {"name": "reset", "qubits": [q]}   # noqa: E731
+    fam = [
+        # init reset on wire 0, doubled reset in the middle of wire 2, trailing reset on the unmeasured wire 1; cut: cx(1,2)
+        (3, [r(0), g("h", [0]), g("ry", [2], 0.6), g("cx", [0, 1]), g("cx", [1, 2]), r(2), r(2), g("ry", [2], 0.8), g("rx", [1], 0.3), r(1)],
+         [4], ["ZIZ", "ZII", "XII", "ZIX"], False, False, None),
+        # the same, only partition-B observables (identity on partition A: placeholder measurement), finite budget
+        (3, [r(0), g("h", [0]), g("ry", [2], 0.6), g("cx", [0, 1]), g("cx", [1, 2]), r(2), r(2), g("ry", [2], 0.8), g("rx", [1], 0.3), r(1)],
+         [4], ["IIZ", "IIX"], True, False, 12),
+        # every wire initialised explicitly (QASM style), two cut gates, trailing resets on both wires of one partition; unseparated call form
+        (3, [r(0), r(1), r(2), g("h", [0]), g("cx", [0, 1]), g("rzz", [1, 2], 0.7), g("ry", [2], 0.4), g("cz", [1, 2]), g("h", [1]), r(0), r(1)],
+         [5, 7], ["IIZ", "IIY"], True, True, None),
+        # two qubits, one cut gate, three resets in a row in the middle of a wire and a leading doubled reset
+        (2, [r(1), r(1), g("h", [0]), g("ry", [1], 1.1), g("cx", [0, 1]), r(0), r(0), r(0), g("ry", [0], 0.5), g("rx", [1], 0.2)],
+         [4], ["ZZ", "XI", "IY"], True, False, None),
+        # control: the same kind of circuit with an additional wire cut (Move onto a fresh wire)
+        (4, [r(0), g("h", [0]), g("ry", [2], 0.6), g("cx", [0, 1]), g("cx", [1, 2]), r(1), g("ry", [2], 0.8), g("move", [2, 3]),
+             g("rx", [3], 0.4)], [4], ["ZIIZ", "XIII", "ZIIX"], True, False, None),
+    ]
+    for k, (nq, instrs, cut_ids, obs, auto, single, n_) in enumerate(fam):
+        yield ("workflow", {"kind": "reuse_chain", "nq": nq, "qregs": [nq], "instrs": instrs, "cut_ids": cut_ids,
+                            "obs": [{"l": l, "p": 0} for l in obs], "auto": auto, "N": n_, "seed": 191200 + k, "single": single,
+                            "always_oracle": True})
+
+
 def cases(rng, tier):
     N = 50 if tier == "quick" else 600
+    yield from _gate_cut_reset_cases()
     for two in ("cz", "cy", "ch"):
         yield _dest_used_case(rng, two)
     for k in range(2):
@@ -171,7 +205,8 @@ def _pipeline(payload):
         obs1 = expand_observables(obs0, qc0, qc1)
     else:
         from qiskit_addon_cutting import cut_gates
-        ids = [i for i, ins in enumerate(payload["instrs"]) if ins["name"] == "move"]
+        # Moves are wrapped as wire cuts; `cut_ids` names further (ordinary two-qubit) gates to be cut
+        ids = sorted({i for i, ins in enumerate(payload["instrs"]) if ins["name"] == "move"} | set(payload.get("cut_ids", [])))
         qc1, _ = cut_gates(qc0, ids)
         obs1 = obs0
     if payload.get("single"):
